@@ -36,6 +36,8 @@ Definition pb_all (a : bool * bool) : bool := fst a && snd a.
 Definition m_cmp (f : Z -> Z -> bool) (a b : list (list Z)) : list (list bool) := zip_with (zip_with f) a b.
 Definition m_and (a b : list (list bool)) : list (list bool) := zip_with (zip_with andb) a b.
 Definition m_sum (a : list (list bool)) : Z := zsum (map b2z (concat a)).
+Definition m_map {A B : Type} (f : A -> B) (a : list (list A)) : list (list B) := map (map f) a.
+Definition m_all (a : list (list bool)) : bool := forallb (forallb (fun b : bool => b)) a.
 Definition m_eqb (a b : list (list Z)) : bool := list_eqb (list_eqb Z.eqb) a b.      (* jnp.array_equal on equally shaped arrays *)
 Definition lax_switch {A B : Type} (i : Z) (fs : list (A -> B)) (d : A -> B) (x : A) : B :=
   nth (Z.to_nat (Z.max 0 (Z.min (zlen fs - 1) i))) fs d x.
@@ -86,6 +88,8 @@ class Tr:
                     return c, ("fn", pts, rt)
                 raise Unsupported("self." + n.attr)
             v, t = self.expr(n.value)
+            if t == "State" and n.attr == "key" and n.attr in S["state_fields"] and S["state_fields"][n.attr] is None:
+                return "tt", "Key"
             if t == "State" and S["state_fields"].get(n.attr):
                 return "(s_%s %s)" % (n.attr, v), S["state_fields"][n.attr]
             if t == "Obs" and n.attr in S["obs_fields"]:
@@ -105,6 +109,12 @@ class Tr:
                 return "(%s %s %s)" % (a, "||" if isinstance(n.op, ast.BitOr) else "&&", b), "B"
             if isinstance(n.op, (ast.Add, ast.Sub, ast.Mult)) and ta == tb == "Z":
                 return "(%s %s %s)" % (a, {ast.Add: "+", ast.Sub: "-", ast.Mult: "*"}[type(n.op)], b), "Z"
+            if isinstance(n.op, ast.Add) and ta == "Z" and tb == "B":
+                return "(%s + b2z %s)" % (a, b), "Z"
+            if isinstance(n.op, (ast.Sub, ast.Add)) and ta == "MZ" and tb == "Z":
+                return "(m_map (fun x_ : Z => x_ %s %s) %s)" % ("-" if isinstance(n.op, ast.Sub) else "+", b, a), "MZ"
+            if isinstance(n.op, ast.Add) and ta == tb == "Pos" and S.get("position_add"):
+                return "(Position_add %s %s)" % (a, b), "Pos"
             if isinstance(n.op, ast.Add) and ta == "Pos" and tb == "VPos":     # (2,) + (K, 2) broadcasts over the K rows
                 return "(map (fun m_ : Z * Z => (fst %s + fst m_, snd %s + snd m_)) %s)" % (a, a, b), "VPos"
             if isinstance(n.op, ast.BitAnd) and ta == tb == "PB":
@@ -129,6 +139,8 @@ class Tr:
                 return "(pos_cmp %s %s %s)" % (fsym, a, b), "PB"
             if ta == "VPos" and tb == "Z" and fsym:
                 return "(map (fun p_ : Z * Z => pos_cmp %s p_ %s) %s)" % (fsym, b, a), "VPB"
+            if ta == "MZ" and tb == "Z" and fsym:
+                return "(m_map (fun x_ : Z => %s x_ %s) %s)" % (fsym, b, a), "MB"
             if ta == tb == "MZ" and op in (ast.Eq, ast.NotEq):
                 return "(m_cmp (fun x_ y_ => %s(x_ =? y_)) %s %s)" % ("negb " if op is ast.NotEq else "", a, b), "MB"
             if ta == tb == "Pos" and op is ast.Eq:
@@ -155,9 +167,12 @@ class Tr:
             raise Unsupported("subscript " + u(n))
         if isinstance(n, ast.Lambda):
             a = n.args
+            want = getattr(n, "_param_types", None)
+            if a.vararg is not None and not a.args and not a.defaults and not a.kwonlyargs and not a.kwarg and want is not None:
+                body, tb = self.expr(n.body)       # `lambda *_: e` ignores its arguments
+                return "(fun %s => %s)" % (" ".join("(_ : %s)" % COQ_TY[t] for t in want), body), ("fn", list(want), tb)
             if a.defaults or a.kwonlyargs or a.vararg or a.kwarg:
                 raise Unsupported("lambda signature")
-            want = getattr(n, "_param_types", None)
             if not a.args:
                 body, tb = self.expr(n.body)
                 return body, ("thunk", tb)
@@ -197,6 +212,9 @@ class Tr:
         if f == "jax.lax.cond" and len(n.args) > 3 and not kws:
             c, tc = self.expr(n.args[0])
             xs = [self.expr(x) for x in n.args[3:]]
+            for lam in n.args[1:3]:
+                if isinstance(lam, ast.Lambda):
+                    lam._param_types = [t for _, t in xs]
             g, tg = self.expr(n.args[1])
             h, th = self.expr(n.args[2])
             if tc != "B" or tg[0] != "fn" or th[0] != "fn":
@@ -219,6 +237,8 @@ class Tr:
                 return "(pb_all %s)" % v, "B"
             if t == "VPB" and [(k, u(x)) for k, x in kws.items()] == [("axis", "-1")]:
                 return "(map pb_all %s)" % v, "VB"
+            if t == "MB" and not kws:
+                return "(m_all %s)" % v, "B"
             raise Unsupported("jnp.all on %s" % (t,))
         if f == "jnp.sum" and len(n.args) == 1 and not kws:
             v, t = self.expr(n.args[0])
@@ -257,6 +277,33 @@ class Tr:
                     raise Unsupported("%s: reward type" % f)
                 return "(%s [%s])" % (S["ts_kw"][f], r), "TS"
             return S["ts_kw"][f], "TS"
+        if f == "jax.random.split" and len(n.args) == 1 and not kws:
+            v, t = self.expr(n.args[0])
+            if t == "Key":
+                return "(tt, tt)", ("tuple", ["Key", "Key"])
+        if f == "jnp.clip" and len(n.args) == 2 and not kws:
+            (m, tm), (lo, tl) = self.expr(n.args[0]), self.expr(n.args[1])
+            if tm == "MZ" and tl == "Z":
+                return "(m_map (Z.max %s) %s)" % (lo, m), "MZ"
+        if f == "jnp.asarray" and len(n.args) == 2 and u(n.args[1]) == "float" and not kws:
+            v, t = self.expr(n.args[0])
+            if t == "B":
+                return "(b2z %s)" % v, "Z"
+        if f == "Position" and len(n.args) == 1 and isinstance(n.args[0], ast.Starred) and not kws \
+                and isinstance(n.args[0].value, ast.Call) and u(n.args[0].value.func) == "tuple" and len(n.args[0].value.args) == 1:
+            v, t = self.expr(n.args[0].value.args[0])
+            if t == "Pos":
+                return v, "Pos"
+        if f == "Position" and not n.args and set(kws) == {"row", "col"}:
+            (a, ta), (b, tb) = self.expr(kws["row"]), self.expr(kws["col"])
+            if ta == tb == "Z":
+                return "(%s, %s)" % (a, b), "Pos"
+        if f.startswith("jax.vmap(") and isinstance(n.func, ast.Call) and len(n.func.args) == 1 and not n.func.keywords and len(n.args) == 1 and not kws:
+            g, tg = self.expr(n.func.args[0])
+            xs, tx = self.expr(n.args[0])
+            if tg[0] == "fn" and tg[1] == ["Pos"] and tx == "VPos" and tg[2] == "B":
+                return "(map %s %s)" % (g, xs), "VB"
+            raise Unsupported("vmap(f)(xs) types %s %s" % (tg, tx))
         if f == "jnp.any" and len(n.args) == 1 and not kws:
             v, t = self.expr(n.args[0])
             if t == "VB":
@@ -287,7 +334,8 @@ class Tr:
                 parts.append(v)
             for k, t in fields.items():
                 if t is None and not (isinstance(kws[k], ast.Attribute) and kws[k].attr == k):
-                    raise Unsupported("%s.%s is not copied from the previous state" % (f, k))
+                    if self.expr(kws[k])[1] != "Key":
+                        raise Unsupported("%s.%s is neither copied from the previous state nor a PRNG key" % (f, k))
             return "(mk%s %s)" % (f, " ".join(parts)), ("State" if f == "State" else "Obs")
         if f.startswith("jax.vmap(") and isinstance(n.func, ast.Call) and len(n.func.args) == 1 and len(n.args) == 2 and not kws \
                 and [(k.arg, u(k.value)) for k in n.func.keywords] == [("in_axes", "(None, 0)")]:
